@@ -167,7 +167,7 @@ func replayStore(args []string) error {
 				}
 				cache := []string{"none", "lru"}[rng.Intn(2)]
 				var got *updog.Index
-				outcome, oerr = watchdog(5*time.Second, func() error {
+				outcome, oerr = watchdog(15*time.Second, func() error {
 					i, err := vx.Open(path, mode, cache, 4096)
 					got = i
 					return err
@@ -176,7 +176,7 @@ func replayStore(args []string) error {
 					idx = got
 				}
 			case "close":
-				outcome, oerr = watchdog(5*time.Second, func() error { return idx.Close() })
+				outcome, oerr = watchdog(15*time.Second, func() error { return idx.Close() })
 			}
 			bad := ""
 			if outcome != st.Out {
@@ -294,7 +294,7 @@ func crashOpen(path string, ps *probeSet) map[string]any {
 	same := true
 	for _, mode := range []string{"ondemand", "preload"} {
 		var idx *updog.Index
-		o, _ := watchdog(10*time.Second, func() error {
+		o, _ := watchdog(20*time.Second, func() error {
 			i, err := vx.Open(path, mode, "none", 0)
 			idx = i
 			return err
